@@ -16,16 +16,27 @@
 // are honoured); in addition the arena knows the requested size of every block (LargeEnough), detects
 // double frees, writes behind a block (guard bytes; exact with ASan: the tail is poisoned) and leaks.
 //
-// header: {"policy":"default"|"reusable"|"mtsafe"|"stack"|"placement"|"buffer"|"extra",
+// header: {"policy":"default"|"reusable"|"mtsafe"|"stack"|"placement"|"buffer",
+//          "ex":bool    the policy is the BASE of cocls::promise_extra_storage<Extra, rec<policy>>: rec<> records the sizes
+//                       the base's alloc / dealloc are called with (stack / placement / buffer get their constructor
+//                       argument from a default constructible derived class of the harness),
+//          "copy":bool  placement / buffer / stack storage objects only refer to memory: every other creation goes
+//                       through a copy of the storage object,
 //          "mode":"seq"|"mt", "grain":"call"|"atomic"|"alloc", "kill":"finish"|"destroy",
 //          "init":<abstract size>, "nslots":n,
 //          "fam":0..3   shape family of the coroutines: 0 bodies with local arrays of 16/256/1024 bytes, 1 the same
 //                       + 8 bytes (the other residue of the frame size mod 16), 2/3 the library's callback_await_coro
 //                       created through callback_await_alloc<Policy, future<int>&> with callbacks of those sizes,
 //          "obs":"full"|"alloc"   alloc: reduced projection {"bad","dels","live","news","where":[..]} (used by C20)}
-// steps:  Create(t,c) Complete(t,f) New(t) Del(t) Store(t) Teardown
-// projection: {"bad":[...harness-side check failures, expected empty...],"busy","cap","dels","fr":[{..}],
-//              "heap":[size per slot],"inv","news","pend":{t:..},"ptr","torn"}
+// steps:  Create(t,c) CreateB(t,c) Complete(t,f) New(t) Del(t) Store(t) Teardown
+//         NewObj MoveCtor MoveAssign(s,d) Drop(o)      a second storage object; construction / assignment by move
+//         OwnerResize(k) OwnerShrink OwnerClear OwnerMoveOut OwnerSwap(k)   what the owner of the buffer does to it
+// projection: {"bad":[...harness-side check failures, expected empty...],"busy","dels","fr":[{..}],
+//              "heap":[size per slot],"news","objs":[{"st","ptr","cap","inv","fac"} x2],"pend":{t:..},"torn"}
+//   fr[i]: c, o (storage object), live, where, slot, blk, tr (what the base keeps behind the frame), eo (attached
+//          object), asz (size the base's alloc got), dz ("live" | "same" | "alloc:<a>/dealloc:<d>"), ct, dt
+// Memory a policy returns that cannot hold the frame (null, released, too small) is recorded in `bad` and the
+// frame is put into memory of the harness instead, so that the process lives to report it.
 //
 // mode "mt": two real threads under the controlled scheduler (vsched): the instrumented atomic
 // operations on _busy are scheduling points; with grain "alloc" every operator new / delete call made
@@ -312,15 +323,25 @@ static cocls::with_allocator<A, cocls::async<void>> body(A &, FrameRef &ref) {
 constexpr int NFAM = 4;
 constexpr std::size_t N1 = 16, N2 = 256, N3 = 1024;
 
-template <typename A>
+// HALF: only family 0 of the bodies and family 3 of the callbacks are instantiated (the attached-object layer is
+// replayed with these two: one frame size of each residue mod 16, both creation paths; halves the build)
+template <typename A, bool HALF = false>
 static cocls::with_allocator<A, cocls::async<void>> make_body(int fam, int c, A &st, FrameRef &ref) {
-    switch (c * 2 + (fam & 1)) {
-        case 2: return body<N1>(st, ref);
-        case 3: return body<N1 + 8>(st, ref);
-        case 4: return body<N2>(st, ref);
-        case 5: return body<N2 + 8>(st, ref);
-        case 6: return body<N3>(st, ref);
-        default: return body<N3 + 8>(st, ref);
+    if constexpr (HALF) {
+        switch (c) {
+            case 1: return body<N1>(st, ref);
+            case 2: return body<N2>(st, ref);
+            default: return body<N3>(st, ref);
+        }
+    } else {
+        switch (c * 2 + (fam & 1)) {
+            case 2: return body<N1>(st, ref);
+            case 3: return body<N1 + 8>(st, ref);
+            case 4: return body<N2>(st, ref);
+            case 5: return body<N2 + 8>(st, ref);
+            case 6: return body<N3>(st, ref);
+            default: return body<N3 + 8>(st, ref);
+        }
     }
 }
 
@@ -353,9 +374,16 @@ struct CbFn {
     }
 };
 
-template <typename A>
+template <typename A, bool HALF = false>
 static void make_cb(int fam, int c, A &st, FrameRef &ref, cocls::future<int> &fut) {
     using Awt = cocls::future<int> &;
+    if constexpr (HALF) {
+        switch (c) {
+            case 1: cocls::callback_await_alloc<A, Awt>(st, CbFn<N1 + 8>(&ref), fut); break;
+            case 2: cocls::callback_await_alloc<A, Awt>(st, CbFn<N2 + 8>(&ref), fut); break;
+            default: cocls::callback_await_alloc<A, Awt>(st, CbFn<N3 + 8>(&ref), fut); break;
+        }
+    } else
     switch (c * 2 + (fam & 1)) {
         case 2: cocls::callback_await_alloc<A, Awt>(st, CbFn<N1>(&ref), fut); break;
         case 3: cocls::callback_await_alloc<A, Awt>(st, CbFn<N1 + 8>(&ref), fut); break;
@@ -460,7 +488,7 @@ struct World {
     using A = traced<S>;
     static constexpr std::size_t extra_sz = EX ? sizeof(Extra) : 0;
     static constexpr std::size_t trailer = extra_sz + PB<P>::trailer;     // everything behind the frame
-    static constexpr bool movable = P == Pol::reusable;
+    static constexpr bool movable = P == Pol::reusable || (P == Pol::def && EX);   // Movable of Storage.tla
     static constexpr bool copyable = !EX && (P == Pol::placement || P == Pol::buffer || P == Pol::stack);
 
     std::unique_ptr<A> stor[2];                 // the storage objects (the second one: reusable_storage only)
@@ -655,7 +683,7 @@ struct World {
     void create_on(A &st, FrameRef &ref, int c) {
         long ev0 = ereg::n;
         if (fam < 2) {
-            auto co = make_body<A>(fam, c, st, ref);
+            auto co = make_body<A, EX>(fam, c, st, ref);
             if (!ref.r) { note("alloc-hook-not-called"); return; }
             ref.r->ev_begin = ev0;
             check_extra(st, ref);
@@ -663,7 +691,7 @@ struct World {
             std::coroutine_handle<> h = sp.pop();
             h.resume();                    // runs the body up to its gate: canaries written
         } else {
-            make_cb<A>(fam, c, st, ref, *futs[ref.idx]);   // created, started, suspended on the future
+            make_cb<A, EX>(fam, c, st, ref, *futs[ref.idx]);   // created, started, suspended on the future
             if (!ref.r) { note("alloc-hook-not-called"); return; }
             ref.r->ev_begin = ev0;
             check_extra(st, ref);
@@ -992,7 +1020,7 @@ struct World {
         fam = (int) sc.hdr.at("fam").as_int(0);
         obs_alloc = sc.hdr.at("obs").as_str("full") == "alloc";
         use_copy = copyable && sc.hdr.at("copy").as_bool(false);
-        if (fam < 0 || fam >= NFAM || (mt && fam >= 2)) { rep.error(0, "bad shape family"); return; }
+        if (fam < 0 || fam >= NFAM || (mt && fam >= 2) || (EX && fam != 0 && fam != 3)) { rep.error(0, "bad shape family"); return; }
         F = FF[fam];
         if (fam >= 2) kill = "finish";
         warm_thread();
